@@ -157,7 +157,7 @@ def run(ctx):
         kind = "dom" if i % 2 else "etree"
         frag = ctx.rng.choice([None, None, "div", "svg", "table"])
         try:
-            tree = gen.parse_real(text, tb=kind, fragment=frag, full=True)
+            tree = gen.parse_real(text, tb=kind, fragment=frag, full=True, ns=(i % 4 != 3))     # a quarter without HTML namespace
             toks = gen.walk_real(tree, kind)
             abstract = trees.from_dom(tree) if kind == "dom" else trees.from_etree(tree)
         except Exception:
@@ -174,7 +174,7 @@ def run(ctx):
         text = "<!DOCTYPE html><title>Doc</title>" + "".join(parts)
         kind = "dom" if i % 2 else "etree"
         try:
-            tree = gen.parse_real(text, tb=kind, full=True)
+            tree = gen.parse_real(text, tb=kind, full=True, ns=(i % 4 != 3))
             toks = gen.walk_real(tree, kind)
             abstract = trees.from_dom(tree) if kind == "dom" else trees.from_etree(tree)
         except Exception:
